@@ -43,10 +43,12 @@ Judgement calls (oracle kept no stronger than the statement):
     `stopEvent or s.onEvent()` short-circuit skips them, which is the strict
     "until a layer consumes it" reading) - not a violation either way.
     Elements beyond the consumer's element must not see it.
- J2 members of the emitter's own group (emitter included): at most once
-    (Appendix B).  If the consumer is one of them the statement does not say
-    whether the walk continues: both "all layers above saw it" and "nobody
-    above saw it" are accepted.
+ J2 members of the emitter's own group (emitter included) may see the event
+    at most once (Appendix B; the statement does not demand that siblings are
+    notified).  They are not above (below) the emitter, so their seeing or
+    "consuming" the event does not end the walk: every layer strictly above
+    (below) the group must still see it exactly once, in order, until one of
+    THOSE layers consumes it.
  J3 detached: the emitter's direct neighbour element is notified inside the
     emitEvent call itself (by design: `if not upper.onEvent(ev): defer
     upper.emitEvent`); the stack-level entry points notify the end element and
@@ -403,6 +405,8 @@ def probe_event(stack, shape, path, emitter, direction, detached, consumer):
         vs.append(V(pre + "endless-handoff", "%s: the loop never finishes delivering" % where, shape, path, probe, None))
     x = M.event_expect(elems, emitter, direction, consumer)
     for cls, detail in M.judge_event(x, seen_sync, seen_loop, detached):
+        if cls == "missed" and consumer in x.own:
+            cls = "hidden-by-own-group"      # a member of the emitter's own group ended the walk
         detail = dict(detail, seen_in_call=seen_sync, seen_in_loop=seen_loop, required=x.required,
                       optional=sorted(x.optional))
         vs.append(V(pre + cls, "%s: %s" % (where, cls), shape, path, probe, detail))
@@ -439,10 +443,14 @@ def event_matrix(shape, full):
             for d in ("emit", "broadcast"):
                 yield (None, d, det, None)
                 yield (None, d, det, mid)
-        for e in elems:
+        for i, e in enumerate(elems):
             for d in ("emit", "broadcast"):
                 yield (e[0], d, False, None)
                 yield (e[-1], d, True, None)
+                if shape[i] > 0:
+                    # consumer inside the emitter's own group (sibling, or the emitter itself for a group of 1)
+                    yield (e[0], d, False, e[-1])
+                    yield (e[-1], d, True, e[0])
 
 
 def run_shape_path(shape, path, full, only_probe=None):
@@ -856,7 +864,7 @@ def run(ctx):
         "bound": "all %d shapes of depth 1..%d over {layer, group of 1..4}; every construction path (<=16 per shape); "
                  "full emitter x consumer x {emit,broadcast} x {normal,detached} matrix on every path up to depth %d and on the "
                  "canonical path (tuple/classes/explicit) at every depth, reduced event matrix (stack-level + first/last member of "
-                 "every element) on the other paths above that depth; structure, interfaces and data both ways on every path"
+                 "every element, without consumer and with a consumer in the emitter's own group) on the other paths above that depth; structure, interfaces and data both ways on every path"
                  % (n_shapes, depth, full_all_depth),
         "shapes": n_shapes,
         "stacks_built": tot["stacks"],
